@@ -18,19 +18,19 @@ Local Open Scope N_scope.
    clauses implied by their premises, non-original leaves valid, root false) and every original leaf is
    implied by the assertions its mask denotes, then no interpretation satisfies all extracted terms. *)
 Theorem core_unsat : forall (W : Type) (holds_c : W -> cref -> Prop) (holds_t : W -> term -> Prop)
-  undef P cmask parts leaves,
+  undef P cmask parts orig leaves,
   valid_refutation W holds_c undef P -> computeClauses undef P = Some leaves ->
-  masks_correct W holds_c holds_t cmask parts leaves ->
-  ~ sat W holds_t (mapClausesToTerms cmask parts leaves).
+  masks_correct W holds_c holds_t cmask parts orig leaves ->
+  ~ sat W holds_t (mapClausesToTerms cmask parts orig leaves).
 Proof. exact core_unsat_lemma. Qed.
 Print Assumptions core_unsat.
 
 (* Named mode (no minimisation): named and hidden terms together are the extracted set ... *)
 Theorem core_named_unsat : forall (W : Type) (holds_c : W -> cref -> Prop) (holds_t : W -> term -> Prop)
-  undef P cmask parts leaves names_empty contains,
+  undef P cmask parts orig leaves names_empty contains,
   valid_refutation W holds_c undef P -> computeClauses undef P = Some leaves ->
-  masks_correct W holds_c holds_t cmask parts leaves ->
-  let nh := partitionNamedTerms false names_empty contains (mapClausesToTerms cmask parts leaves) in
+  masks_correct W holds_c holds_t cmask parts orig leaves ->
+  let nh := partitionNamedTerms false names_empty contains (mapClausesToTerms cmask parts orig leaves) in
   ~ sat W holds_t (fst nh ++ snd nh).
 Proof. exact core_named_unsat_lemma. Qed.
 Print Assumptions core_named_unsat.
@@ -38,11 +38,11 @@ Print Assumptions core_named_unsat.
 (* ... hence the named terms with ALL unnamed current assertions are unsatisfiable, provided every extracted
    term without a name is an unnamed current assertion. *)
 Theorem core_with_unnamed_unsat : forall (W : Type) (holds_c : W -> cref -> Prop) (holds_t : W -> term -> Prop)
-  undef P cmask parts leaves names_empty contains unnamed,
+  undef P cmask parts orig leaves names_empty contains unnamed,
   valid_refutation W holds_c undef P -> computeClauses undef P = Some leaves ->
-  masks_correct W holds_c holds_t cmask parts leaves ->
-  (forall t, In t (mapClausesToTerms cmask parts leaves) -> (names_empty = true \/ contains t = false) -> In t unnamed) ->
-  ~ sat W holds_t (fst (partitionNamedTerms false names_empty contains (mapClausesToTerms cmask parts leaves)) ++ unnamed).
+  masks_correct W holds_c holds_t cmask parts orig leaves ->
+  (forall t, In t (mapClausesToTerms cmask parts orig leaves) -> (names_empty = true \/ contains t = false) -> In t unnamed) ->
+  ~ sat W holds_t (fst (partitionNamedTerms false names_empty contains (mapClausesToTerms cmask parts orig leaves)) ++ unnamed).
 Proof. exact core_with_unnamed_unsat_lemma. Qed.
 Print Assumptions core_with_unnamed_unsat.
 
@@ -63,13 +63,25 @@ Print Assumptions core_leaves_are_original.
 Theorem core_unsat_reindexed_refuted :
   valid_refutation bool rx_holds_c 99 rx_proof /\
   computeClauses 99 rx_proof = Some [12; 10] /\
-  masks_correct bool rx_holds_c rx_holds_t rx_cmask rx_parts_first [10] /\
-  sat bool rx_holds_t (mapClausesToTerms rx_cmask rx_parts_final [12; 10]).
+  masks_correct bool rx_holds_c rx_holds_t rx_cmask rx_parts_first rx_id [10] /\
+  sat bool rx_holds_t (mapClausesToTerms rx_cmask rx_parts_final rx_id [12; 10]).
 Proof.
   destruct reindex_witness as (A & B & C & D & E). split; [exact A|]. split; [exact B|]. split; [exact C|].
   rewrite D. exact E.
 Qed.
 Print Assumptions core_unsat_reindexed_refuted.
+
+(* The repaired partition map (every index a term received is kept: pm_set true) restores mask correctness on the same
+   history, and core_unsat then applies: the extracted set is {a, (not a)}. *)
+Theorem core_unsat_reindexed_repaired :
+  masks_correct bool rx_holds_c rx_holds_t rx_cmask rx_parts_final_repaired rx_id [12; 10] /\
+  mapClausesToTerms rx_cmask rx_parts_final_repaired rx_id [12; 10] = [1; 2] /\
+  ~ sat bool rx_holds_t (mapClausesToTerms rx_cmask rx_parts_final_repaired rx_id [12; 10]).
+Proof.
+  destruct reindex_repaired_witness as (A & B). destruct reindex_witness as (V & C & _).
+  split; [exact A|]. split; [exact B|]. exact (core_unsat_lemma bool rx_holds_c rx_holds_t 99 rx_proof rx_cmask _ rx_id _ V C A).
+Qed.
+Print Assumptions core_unsat_reindexed_repaired.
 
 (* Names, repaired TermNames (eraseTermName drops the entry of a term with its last name): for every history of
    tryInsert / pushScope / popScope, every term the builder classifies as named prints a name, that name is
@@ -113,11 +125,11 @@ Example c06_nonvacuous :
   let P := [(1, mk_der CLA_ORIG []); (2, mk_der CLA_ORIG []); (3, mk_der CLA_THEORY []); (4, mk_der CLA_ORIG []);
             (5, mk_der CLA_LEARNT [1; 3]); (6, mk_der CLA_LEARNT [5; 2; 1]); (99, mk_der CLA_LEARNT [6; 5])] in
   let cmask := fun c => match c with 1 => [0%nat] | 2 => [2%nat] | 4 => [1%nat] | _ => [] end in
-  let parts := pm_set 30 2 (pm_set 10 0 (pm_set 20 1 [])) in
+  let parts := pm_set false 30 2 (pm_set false 10 0 (pm_set false 20 1 [])) in
   computeClauses 99 P = Some [1; 2] /\
-  mapClausesToTerms cmask parts [1; 2] = [10; 30] /\
+  mapClausesToTerms cmask parts (fun t => t) [1; 2] = [10; 30] /\
   exists s, tn_run true [NInsert 1 10; NPush; NInsert 2 20; NPop] tn_init = Some s /\
-    buildCore false false (tn_empty s) (tn_contains s) cmask parts 99 P = Some (NamedCore [10] [30]) /\
+    buildCore false false (tn_empty s) (tn_contains s) cmask parts (fun t => t) 99 P = Some (NamedCore [10] [30]) /\
     printed_names s [10] = [PickName 1].
 Proof.
   split; [vm_compute; reflexivity|]. split; [vm_compute; reflexivity|].
